@@ -4,6 +4,7 @@
 package c05
 
 import (
+	"strconv"
 	"context"
 	"fmt"
 	"math"
@@ -114,13 +115,23 @@ func genNum(t *rapid.T, k string, depth int) *Node {
 		// at least one side float
 		switch rapid.IntRange(0, 2).Draw(t, "mix") {
 		case 0:
-			return &Node{Op: op, L: genNum(t, "f", depth-1), R: genNum(t, "i", depth-1)}
+			return &Node{Op: op, L: genNum(t, "f", depth-1), R: numStr(t, op, genNum(t, "i", depth-1))}
 		case 1:
-			return &Node{Op: op, L: genNum(t, "i", depth-1), R: genNum(t, "f", depth-1)}
+			return &Node{Op: op, L: numStr(t, op, genNum(t, "i", depth-1)), R: genNum(t, "f", depth-1)}
 		default:
 			return &Node{Op: op, L: genNum(t, "f", depth-1), R: genNum(t, "f", depth-1)}
 		}
 	}
+}
+
+// numStr: under `-` with a float on the other side, an integer leaf may be spelled as the decimal
+// numeral string of the same number: one operand is a float, so the subtraction is carried out in
+// float64 on the number the string denotes.
+func numStr(t *rapid.T, op string, n *Node) *Node {
+	if op == "-" && n.Op == "leaf" && n.K == "i" && rapid.IntRange(0, 5).Draw(t, "numstr") == 0 {
+		n.Prov = "numstr"
+	}
+	return n
 }
 
 func genStr(t *rapid.T, depth int) *Node {
@@ -242,6 +253,11 @@ func (p *printer) expr(n *Node) string {
 			return "{\"k\": " + lit + "}.k"
 		case "tern":
 			return "(true ? " + lit + " : 0)"
+		case "numstr":
+			if n.K == "i" {
+				return strconv.Quote(strconv.FormatInt(n.I, 10))
+			}
+			return lit
 		case "goint":
 			if n.K == "i" {
 				return "gi(" + lit + ")"
@@ -249,10 +265,14 @@ func (p *printer) expr(n *Node) string {
 			return "id(" + lit + ")"
 		}
 		return lit
-	case "neg":
-		return "(-(" + p.expr(n.L) + "))"
-	case "inv":
-		return "(^(" + p.expr(n.L) + "))"
+	case "neg", "inv":
+		op := map[string]string{"neg": "-", "inv": "^"}[n.Op]
+		inner := p.expr(n.L)
+		if p.flat && n.L.Op == "leaf" && !strings.HasPrefix(inner, "(") && !strings.HasPrefix(inner, "-") {
+			// a unary operator binds tighter than every binary one: `^a & b` is `(^a) & b`
+			return op + inner
+		}
+		return "(" + op + "(" + inner + "))"
 	default:
 		l := p.expr(n.L)
 		if p.flat && level(n.Op) != 0 && level(n.Op) == level(n.L.Op) {
